@@ -432,6 +432,13 @@ func (e *Exec) checkAssert(st *State, c *Term, msg string) {
 		return
 	}
 	neg := e.c.Not(c)
+	if neg.IsTrue() {
+		// constant-false assertion: any model of the path is a counterexample
+		if r0, m0 := e.sol.Check(st.pc, nil, e.wantModel()); r0 == Sat {
+			e.res.fail(Failure{Kind: "assert", Msg: msg, Pos: e.posStr(), Model: m0, Choices: append([]int(nil), st.choices...), Stack: e.stackStrs(st)})
+		}
+		panic(deadSignal{"assertion always fails"})
+	}
 	tq := time.Now()
 	r, m := e.sol.Check(st.pc, neg, e.wantModel())
 	e.res.Verdicts++
@@ -720,6 +727,35 @@ func hLock(e *Exec, st *State, fv FuncV, a []Value, cc *ssa.CallCommon) Value {
 			e.res.lockOrder(st.heldNames[h], e.mutexName(st, p, cc))
 		}
 	}
+	if len(e.ob.SingleSection) > 0 && cc != nil && len(cc.Args) > 0 && !e.inHarnessCode(st.top()) {
+		if fa, ok := cc.Args[0].(*ssa.FieldAddr); ok {
+			if pt, ok := fa.X.Type().Underlying().(*types.Pointer); ok {
+				if stt, ok := pt.Elem().Underlying().(*types.Struct); ok {
+					name := typeFullName(pt.Elem()) + "." + stt.Field(fa.Field).Name()
+					for _, want := range e.ob.SingleSection {
+						if want == name {
+							if st.lockCounts == nil {
+								st.lockCounts = map[string]int{}
+							}
+							st.lockCounts[k]++
+							if st.lockCounts[k] == 2 {
+								msg := "critical section split: " + name + " is acquired a second time within one operation (the decision and the update are not atomic)"
+								dup := false
+								for _, o := range e.res.Failures {
+									if o.Kind == "race" && o.Msg == msg {
+										dup = true
+									}
+								}
+								if !dup {
+									e.res.fail(Failure{Kind: "race", Msg: msg, Pos: e.posStr(), Model: e.pathModel(st), Choices: append([]int(nil), st.choices...), Stack: e.stackStrs(st)})
+								}
+							}
+						}
+					}
+				}
+			}
+		}
+	}
 	st.held[k] = true
 	if st.heldNames == nil {
 		st.heldNames = map[string]string{}
@@ -990,11 +1026,13 @@ func hTimeNow(e *Exec, st *State, fv FuncV, a []Value, cc *ssa.CallCommon) Value
 	if st.lastNow != nil {
 		ps, pn := st.lastNow[0], st.lastNow[1]
 		c = e.c.And(c, e.c.Or(e.c.Cmp(OpUlt, ps, sec), e.c.And(e.c.Eq(ps, sec), e.c.Cmp(OpUle, pn, nsec))))
+		// bounded progress: straight-line code between two readings takes less than 5 s
+		c = e.c.And(c, e.c.Cmp(OpUle, sec, e.c.Bin(OpAdd, ps, e.c.Const(64, 5))))
 	}
 	st.pc = append(st.pc, c)
 	st.model = nil
 	st.lastNow = []*Term{sec, nsec}
-	e.res.noteOnce("stub(contract): time.Now returns an arbitrary non-decreasing instant")
+	e.res.noteOnce("stub(contract): time.Now returns an arbitrary instant, non-decreasing and at most 5 s after the previous reading")
 	return &StructV{[]Value{e.c.Zext(64, nsec), sec, Ptr{}}}
 }
 
